@@ -169,6 +169,61 @@ def control_ok():
     except OSError:
         return False
 
+# ---- in parallel with everything below: a QUIC upstream that is away for 34 s while requests keep arriving. The
+#      connector's connection attempt backs off exponentially; service must still resume promptly once the upstream
+#      is back (own proxy, own upstream: nothing here touches the schedules below)
+long_result = {}
+def long_quic_outage():
+    try:
+        qh = QuicHop()
+        e2 = Origin('echo')
+        lhp, lap = free_port(), free_port()
+        lpx = Proxy({'listeners': [{'name': 'http', 'bind': f'127.0.0.1:{lhp}'}],
+                     'connectors': [{'name': 'q', 'type': 'quic', 'server': 'localhost', 'port': qh.port, 'bind': '127.0.0.1:0', 'tls': {'ca': f'{CERTS}/ca.crt'}}],
+                     'rules': [{'target': 'q'}], 'metrics': {'bind': f'127.0.0.1:{lap}', 'ui': None}}, 'c19l')
+        lpx.api_port = lap
+        if not lpx.start([lhp, lap]):
+            long_result['machinery'] = 'proxy did not start'
+            return
+        def lprobe(deadline=DEADLINE):
+            try:
+                s, code, head, rest = http_connect(lhp, f'127.0.0.1:{e2.port}', timeout=deadline)
+            except OSError:
+                return False
+            try:
+                if code != 200:
+                    return False
+                s.sendall(b'probe!')
+                return recv_exact(s, 6, deadline) == b'probe!'
+            except OSError:
+                return False
+            finally:
+                s.close()
+        if not lprobe():
+            long_result['machinery'] = 'quic path does not work before the outage'
+            return
+        qh.stop()
+        t0 = time.time()
+        down_ok = 0
+        while time.time() - t0 < 34:
+            if lprobe(2.0):
+                down_ok += 1
+            time.sleep(1.0)
+        qh.start()
+        t1 = time.time()
+        rec = None
+        for attempt in range(1, K + 1):
+            if lprobe():
+                rec = (attempt, time.time() - t1)
+                break
+            time.sleep(0.5)
+        long_result.update({'recovered': rec, 'served_while_down': down_ok, 'alive': lpx.alive(), 'gave_up_after_s': round(time.time() - t1, 1)})
+        lpx.stop(); qh.stop(); e2.stop()
+    except Exception as e:
+        long_result['machinery'] = repr(e)
+long_thread = threading.Thread(target=long_quic_outage, daemon=True)
+long_thread.start()
+
 KINDS = ['direct', 'http', 'socks5', 'quic', 'lb']
 PHASES = ['idle', 'mid-transfer', 'during-handshake']
 FAULTS = ['stopped', 'killed-rst', 'restarted']
@@ -349,6 +404,17 @@ if tier() == 'thorough' and px.alive():
             for site, cls, detail in vs:
                 chk.violation(site, cls + ':second-outage', detail, {'connector': kind, 'faults': [f1, f2]})
 
+long_thread.join(120)
+evals += 1
+if long_thread.is_alive() or 'machinery' in long_result:
+    machinery(f'long QUIC outage scenario: {long_result.get("machinery", "did not finish")}')
+distinct.add(('long-quic-outage', long_result.get('recovered') is not None))
+if long_result.get('recovered') is None:
+    chk.violation('recovery.resume', 'no-service-after-upstream-returned:quic/away-34s-with-requests-arriving', f'quic upstream away for 34 s while one request per second kept arriving: {K} attempts ({long_result.get("gave_up_after_s")} s) after it was back, still no tunnel', {'connector': 'quic', 'outage_s': 34})
+if long_result.get('served_while_down'):
+    chk.violation('recovery.resume', 'tunnel-established-while-upstream-was-away:quic', f'{long_result["served_while_down"]} probes succeeded while the QUIC upstream process was not running', {})
+samples.append({'long_quic_outage': long_result})
+
 alive = px.alive()
 px.stop()
 for u in ups.values():
@@ -358,6 +424,6 @@ for o in (echo, qecho, cecho):
 if evals < 12 or len(distinct) < 5:
     machinery(f'vacuous: evals={evals} distinct={len(distinct)}')
 cov = {'evaluations': evals, 'distinct_nontrivial': len(distinct), 'transitions': evals, 'traces_validated_against_impl': evals,
-       'rule': f'real binary: connector kind {KINDS} x outage phase {PHASES} x fault {FAULTS} (quick: handshake phase only with restart; thorough adds all pairs of outages); recovery = a probe succeeds within K={K} attempts of {DEADLINE} s after the upstream is reachable again; control tunnel checked during and after every outage; plus, for http and socks5 upstreams, a listener that silently drops connection attempts with 48 requests pending while the control tunnel and new direct requests are timed',
+       'rule': f'real binary: connector kind {KINDS} x outage phase {PHASES} x fault {FAULTS} (quick: handshake phase only with restart; thorough adds all pairs of outages); recovery = a probe succeeds within K={K} attempts of {DEADLINE} s after the upstream is reachable again; control tunnel checked during and after every outage; a QUIC upstream away for 34 s with one request per second arriving meanwhile (the connection attempt backs off exponentially); plus, for http and socks5 upstreams, a listener that silently drops connection attempts with 48 requests pending while the control tunnel and new direct requests are timed',
        'schedules': evals, 'K': K, 'deadline_s': DEADLINE, 'schedule_control': 'kernel', 'samples': samples}
 sys.exit(chk.finish('fault_enumeration', cov, ['silent packet loss on the QUIC path with later recovery is out of reach (needs the 3600 s idle timeout)', 'upstreams are Python servers / a second redproxy process killed with SIGKILL'], merge=False))
